@@ -1776,7 +1776,8 @@ func (s *Store) ExecuteTransaction(transaction *Transaction) error {
 	for k, v := range updateCountsPerDataset {
 		ds, ok := s.datasets.Load(k)
 		if !ok {
-			return errors.New("no dataset " + k)
+			// deleted after the commit above: the transaction has been applied, there is nothing left to count
+			continue
 		}
 
 		err = ds.(*Dataset).updateDataset(v, nil)
